@@ -72,13 +72,13 @@ def _concurrency(ctx):
     # balance lookup while no ERC20 binding exists) is a by-product documented in design/C04.md; any other report fails
     reports = [r for r in se.split('WARNING: DATA RACE')[1:]]
     other = [r for r in reports if 'loadContractCache' not in r]
-    res['race_reports'] = dict(total=len(reports), rpgContractAddress=len(reports) - len(other), other=len(other))
+    race_reports = dict(total=len(reports), rpgContractAddress=len(reports) - len(other), other=len(other))
     if other:
         res['errors'].append('unexpected data race: ' + other[0][:600])
     for line in so.split('\n'):
         if line.startswith('STATS '):
             st = json.loads(line[6:])
-            res['stats'] = dict(st, race_detector=race)
+            res['stats'] = dict(st, race_detector=race, race_reports=race_reports)
             res['ops'] = st.get('answers_compared', 0)
             res['mismatches'] = len(st.get('mismatches') or [])
             res['first'] = [dict(index=0, op='concurrent replay', impl=m, model='answer when run alone') for m in (st.get('mismatches') or [])]
